@@ -134,6 +134,48 @@ pub fn run(rng: &mut Rng, n: usize, rep: &mut Report) {
         let _ = s.w.exec(&ix::accrue(&s.banks[1]));
         let (victim, liquidator) = (s.users[0].acct, s.users[1].acct);
         let (ab, lb) = (s.banks[0], s.banks[1]);
+        // ---- the exact over-liquidation boundary, by bisection on clones of the world: the largest seize amount the
+        //      program accepts must still leave the liquidated account not positive at maintenance level
+        {
+            let (dep_amt, _, _, _) = pos_amounts(&s, &victim, &ab.bank);
+            let dep_tokens: u64 = (&dep_amt >> 48u32).try_into().unwrap_or(u64::MAX);
+            let attempt = |q: u64| -> (bool, Option<u32>, Option<i128>) {
+                let mut w2 = s.w.clone();
+                let ixn = ix::liquidate(
+                    &ab, &lb, liquidator, s.users[1].wallet, victim, q,
+                    w2.oracle_metas_for(&ab.bank), w2.oracle_metas_for(&lb.bank),
+                    w2.remaining_for(&liquidator, &[ab.bank, lb.bank]), w2.remaining_for(&victim, &[]),
+                );
+                match w2.exec(&ixn) {
+                    Ok(()) => (true, None, health(&w2, &victim).map(|h| h.maint)),
+                    Err(e) => (false, e.code(), None),
+                }
+            };
+            if dep_tokens >= 2 {
+                let (ok_lo, _, _) = attempt(1);
+                let (ok_hi, code_hi, _) = attempt(dep_tokens);
+                if ok_lo && !ok_hi {
+                    let (mut lo, mut hi, mut code) = (1u64, dep_tokens, code_hi);
+                    while hi - lo > 1 {
+                        let mid = lo + (hi - lo) / 2;
+                        let (ok, c, _) = attempt(mid);
+                        if ok { lo = mid } else { hi = mid; code = c }
+                    }
+                    rep.bump("boundary_found");
+                    rep.bump(&format!("boundary_rej_{}", code.map(|c| c.to_string()).unwrap_or_else(|| "other".into())));
+                    for q in [lo, lo.saturating_sub(1).max(1)] {
+                        if let (true, _, Some(m)) = attempt(q) {
+                            if m > 0 {
+                                rep.fail(format!(
+                                    "C05 liquidated account positive at maintenance level ({} bits) after the largest accepted seizure {} of {} collateral tokens (next amount refused with {:?}); collateral price {} debt price {}",
+                                    m, q, dep_tokens, code, pa, pl
+                                ));
+                            }
+                        }
+                    }
+                }
+            }
+        }
         for _ in 0..6 {
             let (dep_amt, _, _, _) = pos_amounts(&s, &victim, &ab.bank);
             let dep_tokens: u64 = (&dep_amt >> 48u32).try_into().unwrap_or(u64::MAX);
